@@ -39,8 +39,16 @@ func (cm *MemChatManager) New(cc *ClientConn) ChatID {
 	cm.mu.Lock()
 	defer cm.mu.Unlock()
 
+	// Draw again on 0 (chat requests read chat ID 0 as the public chat) and on an ID that is in use (the new chat would
+	// replace that chat), as MemClientMgr.Add does for client IDs.
 	var randID [4]byte
-	_, _ = rand.Read(randID[:])
+	for {
+		_, _ = rand.Read(randID[:])
+
+		if _, taken := cm.chats[randID]; !taken && randID != [4]byte{} {
+			break
+		}
+	}
 
 	cm.chats[randID] = &PrivateChat{ClientConn: make(map[[2]byte]*ClientConn)}
 
